@@ -34,6 +34,10 @@ struct G {
     size: u64,
     rpos: u64,
     wpos: u64,
+    /// shadow of the raw bytes (by the statement's rules: zero fill on insert, splice, endian layout on
+    /// write), so that written values can be chosen *relative to what the cell holds*
+    data: Vec<u8>,
+    big: bool,
 }
 
 fn ty_width(ty: &str) -> u64 {
@@ -48,13 +52,15 @@ impl G {
     /// `util::Rng::new(s)` and `Rng::new(s + 1)` produce the same stream shifted by one draw, so the
     /// seed is hashed first to give every `VERIF_SEED` an unrelated stream.
     fn new(seed: u64) -> G {
-        G { rng: Rng::new(fnv(&format!("binops-{}", seed))), lines: Vec::new(), id: String::new(), size: 0, rpos: 0, wpos: 0 }
+        G { rng: Rng::new(fnv(&format!("binops-{}", seed))), lines: Vec::new(), id: String::new(), size: 0, rpos: 0, wpos: 0, data: Vec::new(), big: false }
     }
     fn start(&mut self, id: String, big: bool) {
         self.id = id;
         self.size = 0;
         self.rpos = 0;
         self.wpos = 0;
+        self.data.clear();
+        self.big = big;
         self.lines.push(format!("{} new {}", self.id, if big { "BE" } else { "LE" }));
     }
     fn cell_ok(&self, pos: u64, w: u64) -> bool {
@@ -62,6 +68,7 @@ impl G {
     }
     /// Emit an op line and update the shadow by the rules of the statement.
     fn op(&mut self, s: String) {
+        self.shadow_data(&s);
         {
             let f: Vec<&str> = s.split(' ').collect();
             let n = |i: usize| f[i].parse::<u64>().unwrap();
@@ -129,6 +136,165 @@ impl G {
             }
         }
         self.lines.push(format!("{} {}", self.id, s));
+        if std::env::var("BINOPS_SHADOW_DEBUG").is_ok() {
+            // comment line (ignored by harness, driver and orchestrator): lets a script compare the shadow
+            // with the data the implementation prints
+            self.lines.push(format!("# shadow {} size={} data={}", self.id, self.size, hex(&self.data)));
+        }
+    }
+
+    fn put(&mut self, at: u64, bytes: &[u8]) {
+        let len = bytes.len() as u64;
+        if at < self.size && at.checked_add(len).map_or(false, |e| e <= self.size) {
+            self.data[at as usize..(at + len) as usize].copy_from_slice(bytes);
+        }
+    }
+    fn layout(&self, w: u64, bits: u64) -> Vec<u8> {
+        let mut b: Vec<u8> = (0..w).map(|i| (bits >> (8 * i)) as u8).collect();
+        if self.big {
+            b.reverse();
+        }
+        b
+    }
+    /// Shadow of the data bytes; runs *before* the size / cursor shadow of `op`.
+    fn shadow_data(&mut self, s: &str) {
+        let f: Vec<&str> = s.split(' ').collect();
+        let n = |i: usize| f[i].parse::<u64>().unwrap();
+        let size = self.size;
+        match f[0] {
+            "alloc_end" | "W_alloc_end" => self.data.extend(std::iter::repeat(0).take(n(1) as usize)),
+            "allocate" => {
+                if n(1) <= size && n(1) % 4 == 0 && n(2) % 4 == 0 {
+                    let at = n(1) as usize;
+                    self.data.splice(at..at, std::iter::repeat(0).take(n(2) as usize));
+                }
+            }
+            "W_alloc" => {
+                if self.wpos == size {
+                    self.data.extend(std::iter::repeat(0).take(n(1) as usize))
+                } else if self.wpos < size && self.wpos % 4 == 0 && n(1) % 4 == 0 {
+                    let at = self.wpos as usize;
+                    self.data.splice(at..at, std::iter::repeat(0).take(n(1) as usize));
+                }
+            }
+            "deallocate" => {
+                if n(1) < size && n(1).checked_add(n(2)).map_or(false, |e| e <= size) && n(1) % 4 == 0 && n(2) % 4 == 0 {
+                    self.data.drain(n(1) as usize..(n(1) + n(2)) as usize);
+                }
+            }
+            "truncate" => {
+                if n(1) < size {
+                    self.data.truncate(n(1) as usize)
+                }
+            }
+            "w_bytes" => {
+                let b = unhex(f[2]);
+                self.put(n(1), &b)
+            }
+            "W_bytes" => {
+                let b = unhex(f[1]);
+                let at = self.wpos;
+                self.put(at, &b)
+            }
+            o => {
+                if let Some(ty) = o.strip_prefix("w_").filter(|t| TYS.contains(t)) {
+                    let v = f[2].parse::<i64>().unwrap() as u64;
+                    let b = self.layout(ty_width(ty), v);
+                    self.put(n(1), &b)
+                } else if let Some(ty) = o.strip_prefix("W_").filter(|t| TYS.contains(t)) {
+                    let v = f[1].parse::<i64>().unwrap() as u64;
+                    let b = self.layout(ty_width(ty), v);
+                    let at = self.wpos;
+                    self.put(at, &b)
+                }
+            }
+        }
+    }
+    /// Bits currently held by the `w`-byte cell at `at` (None when it is not inside the data).
+    fn cell_bits(&self, at: u64, w: u64) -> Option<u64> {
+        if !self.cell_ok(at, w) || self.data.len() as u64 != self.size {
+            return None;
+        }
+        let mut b: Vec<u8> = self.data[at as usize..(at + w) as usize].to_vec();
+        if self.big {
+            b.reverse();
+        }
+        Some(b.iter().enumerate().map(|(i, x)| (*x as u64) << (8 * i)).sum())
+    }
+    fn typed_i64(ty: &str, bits: u64) -> i64 {
+        match ty {
+            "u8" => (bits & 0xFF) as i64,
+            "u16" => (bits & 0xFFFF) as i64,
+            "u32" | "f32" => (bits & 0xFFFF_FFFF) as i64,
+            "i8" => bits as u8 as i8 as i64,
+            "i16" => bits as u16 as i16 as i64,
+            _ => bits as u32 as i32 as i64,
+        }
+    }
+    /// A value chosen *against* the current content of the cell: one that an equality / numeric
+    /// shortcut would confuse with what is stored (the same value again, the other zero, the same
+    /// NaN, a sign / top-bit flip, a neighbour, the value of the enclosing or enclosed cell).
+    fn adv_value(&mut self, ty: &'static str, at: u64) -> i64 {
+        let w = ty_width(ty);
+        let c = match self.cell_bits(at, w) {
+            Some(c) => c,
+            None => return self.value(ty),
+        };
+        let top = 1u64 << (8 * w - 1);
+        let mask = if w == 4 { 0xFFFF_FFFFu64 } else { (1u64 << (8 * w)) - 1 };
+        let bits = if ty == "f32" {
+            let is_nan = (c & 0x7F80_0000) == 0x7F80_0000 && (c & 0x007F_FFFF) != 0;
+            match self.rng.below(8) {
+                0 | 1 | 2 => c ^ 0x8000_0000,                 // -x over x: the other zero when x is a zero
+                3 => c,                                        // the same value again (the same NaN too)
+                4 => if is_nan { c ^ 1 } else { 0x7FC0_0000 }, // another NaN payload / a NaN
+                5 => if c & 0x7FFF_FFFF == 0 { c ^ 0x8000_0000 } else { 0x8000_0000 },
+                6 => 0,
+                _ => c ^ 0x0000_0001,                          // one ulp
+            }
+        } else {
+            match self.rng.below(8) {
+                0 | 1 => c,              // idempotent write
+                2 => c ^ top,            // differs in the sign bit only
+                3 => c.wrapping_add(1),
+                4 => c.wrapping_sub(1),
+                5 => !c,
+                6 => 0,
+                _ => {
+                    // the low part of the enclosing wider cell / the wider value truncated
+                    self.cell_bits(at & !3, 4).unwrap_or(c)
+                }
+            }
+        };
+        G::typed_i64(ty, bits & mask)
+    }
+    /// Write-then-overwrite pairs on one cell, through the positional and the stream writers in
+    /// every combination: the second write is adversarial w.r.t. the first.
+    fn adv_pair(&mut self) {
+        let ty = self.ty();
+        let a = if self.rng.chance(5, 6) { self.cell() + self.rng.below(2) * self.rng.below(4) } else { self.addr() };
+        let pairs32: [(u32, u32); 8] = [
+            (0, 0x8000_0000), (0x8000_0000, 0), (0x8000_0000, 0x8000_0000), (0x7FC0_0001, 0x7FC0_0001),
+            (0x7FC0_0001, 0xFFC0_0001), (0x3F80_0000, 0xBF80_0000), (0xFFFF_FFFF, 0xFFFF_FFFF), (0x0000_00FF, 0xFFFF_FFFF),
+        ];
+        let (x, y) = *self.rng.pick(&pairs32);
+        let first = if self.rng.chance(1, 3) { None } else { Some(x) };
+        for (k, bits) in [first, Some(y)].into_iter().enumerate() {
+            let bits = match bits {
+                Some(b) => b as u64,
+                None => continue, // keep whatever the cell holds (e.g. the zeros of a fresh allocation)
+            };
+            let v = if k == 1 && self.rng.chance(1, 3) { self.adv_value(ty, a) } else { G::typed_i64(ty, bits) };
+            if self.rng.chance(1, 2) {
+                self.op(format!("w_{} {} {}", ty, a, v));
+            } else {
+                self.op(format!("W_seek {}", a));
+                self.op(format!("W_{} {}", ty, v));
+            }
+        }
+        if self.rng.chance(1, 2) {
+            self.op(format!("r_{} {}", ty, a));
+        }
     }
 
     // ---- value pickers
@@ -277,7 +443,7 @@ impl G {
         match self.rng.below(6) {
             0 | 1 => self.op(format!("r_{} {}", ty, a)),
             2 | 3 => {
-                let v = self.value(ty);
+                let v = if self.rng.chance(1, 2) { self.adv_value(ty, a) } else { self.value(ty) };
                 self.op(format!("w_{} {} {}", ty, a, v))
             }
             4 => {
@@ -405,7 +571,8 @@ impl G {
             3 => { let t = self.rng.chance(1, 2); self.op(if t { "W_tell" } else { "W_size" }.to_string()) }
             4..=8 => {
                 let ty = self.ty();
-                let v = self.value(ty);
+                let at = self.wpos;
+                let v = if self.rng.chance(1, 2) { self.adv_value(ty, at) } else { self.value(ty) };
                 self.op(format!("W_{} {}", ty, v))
             }
             9 | 10 => {
@@ -469,7 +636,8 @@ impl G {
                 30..=47 => self.typed(),
                 48..=69 => self.annot(),
                 70..=72 => self.cstring_macro(),
-                73..=86 => self.reader(),
+                73..=84 => self.reader(),
+                85..=90 => self.adv_pair(),
                 _ => self.writer(),
             }
         }
@@ -514,6 +682,19 @@ impl G {
                     self.op(format!("W_seek {}", a));
                     self.op(format!("W_{} {}", ty, v));
                     self.op("W_tell".to_string());
+                }
+            }
+            // the two zeros (and an idempotent write) over each other, positionally and through the
+            // stream writer: always part of the scope
+            for (o, v) in [("w_f32", 0u32), ("W_f32", 0x8000_0000), ("W_f32", 0x8000_0000), ("W_f32", 0),
+                           ("w_f32", 0x8000_0000), ("W_f32", 0), ("w_i32", 0), ("W_i32", i32::MIN as u32), ("W_u8", 0), ("W_u8", 0x80)] {
+                let ty = &o[2..];
+                let v = G::typed_i64(ty, v as u64);
+                if o.starts_with('W') {
+                    self.op(format!("W_seek {}", a));
+                    self.op(format!("{} {}", o, v));
+                } else {
+                    self.op(format!("{} {} {}", o, a, v));
                 }
             }
             let room = size.saturating_sub(a);
